@@ -203,6 +203,26 @@ PTFrom(t, i, p) ==
           ELSE (p \div m) * inner + CntTerm(g.u, p % m, g.u[1])     \* p % m < m: the follower is inside the unit
 PT(t, p) == PTFrom(t, 1, p)
 
+\* ---- character (rune) indices, as go-yaml's error marks count them
+RECURSIVE CntStarts(_, _)
+CntStarts(u, k) == IF k = 0 THEN 0 ELSE CntStarts(u, k - 1) + (IF IsCont(u[k]) THEN 0 ELSE 1)
+RECURSIVE StartIdx(_, _, _)
+\* 0-based byte index in u of the rune start number j (0-based), scanning from 1-based index i; Len(u) if there is none
+StartIdx(u, i, j) ==
+  IF i > Len(u) THEN Len(u)
+  ELSE IF ~IsCont(u[i]) THEN (IF j = 0 THEN i - 1 ELSE StartIdx(u, i + 1, j - 1))
+  ELSE StartIdx(u, i + 1, j)
+RECURSIVE ByteOfRuneFrom(_, _, _)
+\* byte position of the character with index k (0-based); the length of the text if k is past the end
+ByteOfRuneFrom(t, i, k) ==
+  IF i > Len(t) THEN 0
+  ELSE LET g == t[i]
+           m == Len(g.u)
+           rc == CntStarts(g.u, m)
+       IN IF k >= rc * g.n THEN SegLen(g) + ByteOfRuneFrom(t, i + 1, k - rc * g.n)
+          ELSE (k \div rc) * m + StartIdx(g.u, 1, k % rc)
+ByteOfRune(t, k) == ByteOfRuneFrom(t, 1, k)
+
 \* line terminators of the byte string text[a, b) taken by itself (a CR at its very end is one)
 TermsIn(t, a, b) ==
   IF a >= b THEN 0
